@@ -23,6 +23,11 @@ type c08Carrier struct {
 }
 
 func c08One(out *hx.Out, kind string, compat bool, size uint64, ids []string, car c08Carrier, tags ...string) error {
+	return c08OneR(out, kind, compat, size, ids, car, false, tags...)
+}
+
+// c08OneR: with restart, the hub is stopped and a new one opened on the same history file before the subscription.
+func c08OneR(out *hx.Out, kind string, compat bool, size uint64, ids []string, car c08Carrier, restart bool, tags ...string) error {
 	dir := hx.WorkDir()
 	t, p := hx.NewTransport(kind, dir, size, 1)
 	opts := []mercure.Option{mercure.WithAnonymous()}
@@ -30,12 +35,24 @@ func c08One(out *hx.Out, kind string, compat bool, size uint64, ids []string, ca
 		opts = append(opts, mercure.WithProtocolVersionCompatibility(7))
 	}
 	env := hx.NewEnvWith(kind, dir, p, t, opts...)
-	defer env.Close()
+	defer func() { env.Close() }()
 	auth := http.Header{"Authorization": {"Bearer " + c08Admin}}
 	for _, id := range ids {
 		if code, _ := hx.Post(env.Hub, url.Values{"topic": {"t"}, "id": {id}, "data": {"d"}}, auth); code != 200 {
 			return fmt.Errorf("publish refused: %d", code)
 		}
+	}
+	if restart && kind == "bolt" {
+		if err := env.Hub.Stop(); err != nil {
+			return err
+		}
+		t2, err := mercure.NewBoltTransport(hx.Logger, p, "", size, 1)
+		if err != nil {
+			return err
+		}
+		t = t2
+		env = hx.NewEnvWith(kind, dir, p, t, opts...)
+		tags = append(tags, "restarted")
 	}
 	var history []string
 	if kind == "bolt" {
@@ -86,7 +103,7 @@ func c08One(out *hx.Out, kind string, compat bool, size uint64, ids []string, ca
 	term := fmt.Sprintf("{| c8_compat7 := %s; c8_persistent := %s; c8_history := %s; c8_hdr := %s; c8_qry := %s; c8_legacy := %s; c8_resp := %s; c8_replayed := %s |}",
 		ce.Bool(compat), ce.Bool(kind == "bolt"), ce.Strs(history), ce.Str(str(car.Hdr)), ce.Str(str(car.Qry)), ce.OptStrs(car.Legacy, car.Legacy != nil), resp, ce.Strs(replayed))
 	requested := str(car.Hdr) != "" || str(car.Qry) != "" || (compat && len(car.Legacy) > 0 && car.Legacy[0] != "")
-	out.Add(term, map[string]any{"transport": kind, "compat7": compat, "size": size, "published": ids, "history": history,
+	out.Add(term, map[string]any{"transport": kind, "compat7": compat, "size": size, "published": ids, "history": history, "restart_before_subscribe": restart,
 		"header": car.Hdr, "query": car.Qry, "legacy": car.Legacy, "response": respDesc, "replayed": replayed}, requested && kind == "bolt" && len(history) > 0,
 		append(tags, "transport:"+kind, fmt.Sprintf("compat7:%v", compat), fmt.Sprintf("requested:%v", requested))...)
 	return nil
@@ -139,7 +156,7 @@ func runC08(a args) error {
 			o := r.Pick(alphabet)
 			car.Qry = &o
 		}
-		if err := c08One(out, kind, r.Chance(0.5), size, ids, car, "generated", fmt.Sprintf("size:%d", size), fmt.Sprintf("published:%d", len(ids))); err != nil {
+		if err := c08OneR(out, kind, r.Chance(0.5), size, ids, car, r.Chance(0.4), "generated", fmt.Sprintf("size:%d", size), fmt.Sprintf("published:%d", len(ids))); err != nil {
 			return err
 		}
 	}
